@@ -76,6 +76,37 @@ type VSpecial struct {
 }
 type VTuple struct{ Vals []Value }
 
+// VMap is a lookup table written as a map literal with constant keys (package level or local): looking a symbolic key
+// up in it is a choice between its entries and "not present", exactly like a switch over the key.
+type VMap struct {
+	Keys    []Value
+	KeyText []string
+	Vals    []Value
+	Zero    Value
+	ID      string
+}
+
+// VBuf models a strings.Builder / bytes.Buffer the generator assembles text in: the text written so far.
+type VBuf struct{ S VStr }
+
+// VBufMeth is a method value of a VBuf (WriteString, String, ...).
+type VBufMeth struct {
+	B    *VBuf
+	Name string
+}
+
+func isBufType(t types.Type) bool {
+	if p, ok := t.(*types.Pointer); ok {
+		t = p.Elem()
+	}
+	n, ok := t.(*types.Named)
+	if !ok || n.Obj().Pkg() == nil {
+		return false
+	}
+	q := n.Obj().Pkg().Path() + "." + n.Obj().Name()
+	return q == "strings.Builder" || q == "bytes.Buffer"
+}
+
 func lit(s string) VStr { return VStr{[]Part{{Lit: s}}} }
 func hole(kind, origin string) VStr {
 	return VStr{[]Part{{Hole: &Hole{Kind: kind, Origin: origin}}}}
@@ -704,6 +735,9 @@ func (in *Interp) callFunc(fn *VFunc, args []Value, callPos token.Pos) Value {
 }
 
 func (in *Interp) zero(t types.Type) Value {
+	if _, isPtr := t.(*types.Pointer); !isPtr && isBufType(t) {
+		return &VBuf{}
+	}
 	switch u := t.Underlying().(type) {
 	case *types.Basic:
 		switch {
@@ -1162,6 +1196,10 @@ func (in *Interp) evalMulti(fr *Frame, e ast.Expr, n int) []Value {
 		// map lookup with ok
 		base := in.eval(fr, x.X)
 		idx := in.eval(fr, x.Index)
+		if m, ok := base.(*VMap); ok {
+			v, found := in.mapLookup(m, idx)
+			return []Value{v, VBool{Known: true, V: found}}
+		}
 		org := origin(base) + "[" + origin(idx) + "]"
 		return []Value{&VOpaque{Origin: org}, VBool{Sym: "has:" + org}}
 	}
@@ -1357,6 +1395,9 @@ func (in *Interp) eval(fr *Frame, e ast.Expr) Value {
 		return v
 	case *ast.CompositeLit:
 		t := info.TypeOf(x)
+		if isBufType(t) {
+			return &VBuf{}
+		}
 		switch u := t.Underlying().(type) {
 		case *types.Struct:
 			st := &VStruct{Fields: map[string]Value{}}
@@ -1380,6 +1421,10 @@ func (in *Interp) eval(fr *Frame, e ast.Expr) Value {
 				l.Elems = append(l.Elems, in.eval(fr, el))
 			}
 			return l
+		case *types.Map:
+			if m, ok := in.mapLit(fr, x, u); ok {
+				return m
+			}
 		}
 		return &VOpaque{Origin: "lit:" + types.ExprString(x.Type)}
 	case *ast.FuncLit:
@@ -1402,6 +1447,9 @@ func (in *Interp) eval(fr *Frame, e ast.Expr) Value {
 		base := in.eval(fr, x.X)
 		idx := in.eval(fr, x.Index)
 		switch b := base.(type) {
+		case *VMap:
+			v, _ := in.mapLookup(b, idx)
+			return v
 		case *VList:
 			i, ok := idx.(VInt)
 			if ok && i.Known {
@@ -1500,6 +1548,8 @@ func (in *Interp) selectFrom(fr *Frame, base Value, sel *types.Selection, x *ast
 		base = p.Elem
 	}
 	switch b := base.(type) {
+	case *VBuf:
+		return &VBufMeth{B: b, Name: x.Sel.Name}
 	case *VStruct:
 		if sel.Kind() == types.FieldVal {
 			// walk embedded path
@@ -1729,6 +1779,10 @@ func (in *Interp) call(fr *Frame, c *ast.CallExpr) Value {
 				return out
 			case "panic":
 				in.gpanic(c.Pos(), "explicit panic(%s)", exprsStr(c.Args))
+			case "new":
+				if t := info.TypeOf(c.Args[0]); t != nil {
+					return &VPtr{in.zero(t)}
+				}
 			}
 			in.fail("builtin %s", id.Name)
 		}
@@ -1758,6 +1812,52 @@ func (in *Interp) call(fr *Frame, c *ast.CallExpr) Value {
 	}
 	org += ")"
 	switch f := fun.(type) {
+	case *VBufMeth:
+		switch f.Name {
+		case "WriteString":
+			f.B.S = f.B.S.concat(asStr(args[0]))
+			return VTuple{[]Value{VInt{Sym: "n"}, VNil{}}}
+		case "WriteByte", "WriteRune":
+			if iv, ok := args[0].(VInt); ok && iv.Known {
+				f.B.S = f.B.S.concat(lit(string(rune(iv.V))))
+			} else {
+				f.B.S = f.B.S.concat(hole("OPAQUE", origin(args[0])))
+			}
+			if f.Name == "WriteByte" {
+				return VNil{}
+			}
+			return VTuple{[]Value{VInt{Sym: "n"}, VNil{}}}
+		case "Write":
+			if l, ok := args[0].(*VList); ok {
+				if bs, ok := bytesOfList(l); ok {
+					f.B.S = f.B.S.concat(lit(bs))
+					return VTuple{[]Value{VInt{Sym: "n"}, VNil{}}}
+				}
+			}
+			if sv, ok := asStrOK(args[0]); ok {
+				f.B.S = f.B.S.concat(sv)
+				return VTuple{[]Value{VInt{Sym: "n"}, VNil{}}}
+			}
+		case "String":
+			return f.B.S
+		case "Bytes":
+			return f.B.S
+		case "Len":
+			if ls, ok := f.B.S.isLit(); ok {
+				return VInt{Known: true, V: len(ls)}
+			}
+			if len(f.B.S.Parts) == 0 {
+				return VInt{Known: true, V: 0}
+			}
+			// text with holes: not empty; its exact length is unknown
+			return VInt{Sym: "len(" + f.B.S.render() + ")"}
+		case "Reset":
+			f.B.S = VStr{}
+			return VTuple{}
+		case "Grow":
+			return VTuple{}
+		}
+		in.fail("method %s of a text buffer at %v", f.Name, fr.pkg.Fset.Position(c.Pos()))
 	case *VFunc:
 		if f.Decl != nil && in.isPurePredicate(f) && !(in.g9mode && in.stack[f.Decl] == 0) {
 			sig := f.Pkg.TypesInfo.Defs[f.Decl.Name].Type().(*types.Signature)
@@ -1904,6 +2004,35 @@ func (in *Interp) call(fr *Frame, c *ast.CallExpr) Value {
 		switch f.Origin {
 		case "extfunc:fmt.Sprintf":
 			return in.sprintf(args)
+		case "extfunc:fmt.Fprintf", "extfunc:fmt.Fprint":
+			// into a text buffer of the generator
+			var buf *VBuf
+			if len(args) > 0 {
+				switch b := args[0].(type) {
+				case *VBuf:
+					buf = b
+				case *VPtr:
+					buf, _ = b.Elem.(*VBuf)
+				}
+			}
+			if buf != nil {
+				if f.Origin == "extfunc:fmt.Fprintf" {
+					buf.S = buf.S.concat(asStr(in.sprintf(args[1:])))
+				} else {
+					for _, a := range args[1:] {
+						buf.S = buf.S.concat(asStr(a))
+					}
+				}
+				return VTuple{[]Value{VInt{Sym: "n"}, VNil{}}}
+			}
+		case "extfunc:bytes.NewBufferString", "extfunc:bytes.NewBuffer":
+			b := &VBuf{}
+			if len(args) == 1 {
+				if sv, ok := asStrOK(args[0]); ok {
+					b.S = sv
+				}
+			}
+			return &VPtr{b}
 		case "extfunc:fmt.Errorf", "extfunc:errors.New":
 			return VErr{"errorf@" + fr.pkg.Fset.Position(c.Pos()).String()}
 		case "extfunc:strconv.Atoi":
@@ -2715,6 +2844,63 @@ func (in *Interp) nameOfVar(o *VOpaque, org string) Value {
 
 // globalConst evaluates a package-level variable whose declaration initialises it with a constant expression and which
 // is never assigned elsewhere (e.g. `var blackIdentifier = "_"`).
+// mapLit: a map literal whose keys are constants.
+func (in *Interp) mapLit(fr *Frame, x *ast.CompositeLit, u *types.Map) (Value, bool) {
+	info := in.info(fr)
+	m := &VMap{Zero: in.zero(u.Elem()), ID: fmt.Sprintf("map@%v", fr.pkg.Fset.Position(x.Pos()).Line)}
+	for _, el := range x.Elts {
+		kv, ok := el.(*ast.KeyValueExpr)
+		if !ok {
+			return nil, false
+		}
+		tv, ok := info.Types[kv.Key]
+		if !ok || tv.Value == nil {
+			return nil, false
+		}
+		m.Keys = append(m.Keys, in.eval(fr, kv.Key))
+		m.KeyText = append(m.KeyText, types.ExprString(kv.Key))
+		m.Vals = append(m.Vals, in.eval(fr, kv.Value))
+	}
+	return m, true
+}
+
+// mapLookup: the entry for a key; an undetermined key chooses among the entries like a switch over the key does.
+func (in *Interp) mapLookup(m *VMap, key Value) (Value, bool) {
+	allKnown := true
+	for i, k := range m.Keys {
+		c, ok := in.binop(token.EQL, key, k, origin(key)+"=="+m.KeyText[i]).(VBool)
+		if ok && c.Known {
+			if c.V {
+				return m.Vals[i], true
+			}
+			continue
+		}
+		allKnown = false
+	}
+	if allKnown || len(m.Keys) == 0 {
+		return m.Zero, false
+	}
+	cands := append(append([]string{}, m.KeyText...), "default")
+	pick := in.decideC("S:"+origin(key)+"#"+fmt.Sprint(len(m.Keys))+"@"+m.ID, len(m.Keys)+1, cands)
+	if ti, ok := key.(VInt); ok && !ti.Known && ti.Sym != "" {
+		if pick < len(m.Keys) {
+			if cv, ok := m.Keys[pick].(VInt); ok && cv.Known {
+				in.learnInt(ti.Sym, cv.V, true)
+			}
+		} else {
+			for _, c := range m.Keys {
+				if cv, ok := c.(VInt); ok && cv.Known {
+					in.learnInt(ti.Sym, cv.V, false)
+				}
+			}
+		}
+	}
+	if pick < len(m.Keys) {
+		return m.Vals[pick], true
+	}
+	return m.Zero, false
+}
+
 func (in *Interp) globalConst(v *types.Var) (Value, bool) {
 	for _, p := range in.repo.Pkgs {
 		if p.Types != v.Pkg() {
@@ -2729,6 +2915,13 @@ func (in *Interp) globalConst(v *types.Var) (Value, bool) {
 				case *ast.ValueSpec:
 					for i, nm := range x.Names {
 						if p.TypesInfo.Defs[nm] == v && i < len(x.Values) {
+							if cl, ok := x.Values[i].(*ast.CompositeLit); ok {
+								if mt, ok := p.TypesInfo.TypeOf(cl).Underlying().(*types.Map); ok {
+									if mv, ok := in.mapLit(&Frame{vars: map[types.Object]*Value{}, pkg: p}, cl, mt); ok {
+										val, found = mv, true
+									}
+								}
+							}
 							if tv, ok := p.TypesInfo.Types[x.Values[i]]; ok && tv.Value != nil {
 								switch tv.Value.Kind() {
 								case constant.String:
@@ -2745,6 +2938,18 @@ func (in *Interp) globalConst(v *types.Var) (Value, bool) {
 				case *ast.AssignStmt:
 					for _, l := range x.Lhs {
 						if id, ok := l.(*ast.Ident); ok && p.TypesInfo.Uses[id] == v {
+							assigned = true
+						}
+						// a store into the table: it is no constant table
+						if ix, ok := l.(*ast.IndexExpr); ok {
+							if id, ok := ast.Unparen(ix.X).(*ast.Ident); ok && p.TypesInfo.Uses[id] == v {
+								assigned = true
+							}
+						}
+					}
+				case *ast.CallExpr:
+					if id, ok := x.Fun.(*ast.Ident); ok && id.Name == "delete" && len(x.Args) > 0 {
+						if a, ok := ast.Unparen(x.Args[0]).(*ast.Ident); ok && p.TypesInfo.Uses[a] == v {
 							assigned = true
 						}
 					}
